@@ -186,7 +186,7 @@ impl Check for C10 {
         vec!["known findings K4/K6 (C09) license differences between failing detected and explicit reader runs".into()]
     }
     fn units(&self, tier: Tier) -> Vec<Unit> {
-        vec![Unit::gen("gen", 16, tier.pick(2500, 60_000))]
+        vec![Unit::gen("gen", 16, tier.pick(20_000, 150_000))]
     }
     fn required_classes(&self, _tier: Tier) -> Vec<&'static str> {
         vec!["output:json", "output:msgpack", "output:yaml", "output:toml", "toml_precondition_holds", "toml_precondition_excluded", "docs:1", "docs:3", "mode:slice", "mode:bytewise"]
